@@ -165,6 +165,13 @@ func init() {
 					} else {
 						res = append(res, "X:"+hex.EncodeToString(b))
 					}
+				case "valex": // validate the schema's own Example()
+					b, err := root.Example()
+					if err != nil {
+						res = append(res, "NOEX-"+errInfo(err))
+					} else {
+						res = append(res, errInfo(validateDoc(root, string(append([]byte(nil), b...)))))
+					}
 				case "len":
 					n, err := root.Len()
 					if err != nil {
